@@ -49,6 +49,7 @@ for key, info in SEEDS.items():
         'detected_by': info['detected_by'],
         'strengthening': info.get('strengthened', 'none needed'),
         **({'obsolete': info['obsolete']} if 'obsolete' in info else {}),
+        **({'recheck': info['recheck']} if 'recheck' in info else {}),
     }
     json.dump(meta, open(os.path.join(dst, 'meta.json'), 'w'), indent=1)
     print('stored', key, info['detected_by'])
